@@ -1,5 +1,6 @@
 SPECIFICATION Spec
 CONSTANTS
+  Variant = "conn"
   MaxN = 3
   Modes = {"pdh", "uuid"}
   MaxHist = 0
